@@ -423,11 +423,22 @@ class GroupList(list):
         self.df, self.by = df, by
 
     def abs_getitem(self, it, k):
-        if isinstance(k, str) and k in self.df.cols:
+        if isinstance(k, str) and k in self.df.cols and isinstance(self.by, str):
             g = GroupedCol(self, k)
             g._it = it
             return g
+        if isinstance(k, (list, ColList)) and list(k) == [c for c in self.df.cols if not c.startswith("__")]:
+            self._it = it
+            return self                                      # all columns selected
         raise Undecided(f"groupby[{k!r}]")
+
+    def apply(self, f, *args, **kw):
+        """DataFrameGroupBy.apply: the function's tables, concatenated in group order"""
+        it = self._it
+        parts = [it.call(f, [sub] + list(args), dict(kw)) for _k, sub in self]
+        if not parts:
+            raise Undecided("groupby.apply on an empty table")
+        return ext_call(it, "pd.concat", [parts], {})
 
 
 class GroupedCol:
@@ -1030,8 +1041,14 @@ def vec_method(it, obj, name, args, kw):
                 return getattr(x, name)(*args)
             raise Undecided(f".str.{name} on abstract value")
         return lift1(sm, obj)
+    if name == "diff" and not args and not kw and obj.exact and all(num(x) and not isinstance(x, bool) for x in obj.v):
+        r = Vec([None] + [b - a for a, b in zip(obj.v, obj.v[1:])], fresh=obj.fresh, aligned=obj.aligned)
+        r.exact = True
+        return r
     if name in ("apply", "map"):
         f = args[0]
+        if isinstance(f, LabelSeries):
+            f = f.d
         if isinstance(f, dict):
             return lift1(lambda x: f.get(x, None), obj)
         return Vec(ai.CTX.per_class(i, lambda x=x: it.call(f, [x], {})) for i, x in enumerate(obj.v))
@@ -1158,6 +1175,16 @@ def df_method(it, obj, name, args, kw):
         return None
     if name == "groupby" and getattr(obj, "exact", False):
         by = kw.get("by", args[0] if args else None)
+        if isinstance(by, (list, tuple)) and by and all(isinstance(b, str) and b in obj.cols for b in by) and \
+                all(isinstance(x, (str, int)) and not isinstance(x, bool) for b in by for x in obj.cols[b].v):
+            rowkeys = list(zip(*[obj.cols[b].v for b in by])) if obj.n else []
+            keys = []
+            for k in rowkeys:
+                if k not in keys:
+                    keys.append(k)
+            if kw.get("sort", True):
+                keys = sorted(keys)
+            return GroupList(obj, list(by), [((k if len(by) > 1 else k[0]), df_select(obj, Vec([rk == k for rk in rowkeys]))) for k in keys])
         if isinstance(by, str) and by in obj.cols and all(isinstance(x, str) for x in obj.cols[by].v):
             keys = []
             for x in obj.cols[by].v:
@@ -1189,6 +1216,13 @@ def ext_attr(it, modname, attr):
     return Module(full)
 
 
+def parts_exact(it, parts):
+    try:
+        return all(isinstance(p, Vec) and p.exact for p in it.iterate(parts))
+    except Exception:
+        return False
+
+
 def _np_elem(fn):
     def f(it, x, *a, **k):
         if isinstance(x, Opaque):
@@ -1218,8 +1252,14 @@ def ext_call(it, dotted, args, kw):
         if isinstance(cnt, NRows):
             return Vec([val] * cnt.n)
         if isinstance(cnt, int):
-            return Vec([val] * cnt)
+            r = Vec([val] * cnt)
+            r.exact = True
+            return r
         return Opaque(name)
+    if name == "np.arange" and len(args) == 1 and isinstance(args[0], int) and not isinstance(args[0], bool):
+        r = Vec(list(range(args[0])))
+        r.exact = True
+        return r
     if name in ("np.isnan", "pd.isnull", "pd.isna", "math.isnan"):
         return lift1(is_nan, args[0])
     if name == "np.flatnonzero" and args and isinstance(args[0], Vec) and all(isinstance(x, bool) for x in args[0].v):
@@ -1290,6 +1330,10 @@ def ext_call(it, dotted, args, kw):
         fresh = name == "pd.Series" and "index" not in kw
         if name == "pd.Series" and isinstance(a0, dict) and "index" not in kw:
             return LabelSeries(a0)
+        ix = kw.get("index")
+        if name == "pd.Series" and isinstance(ix, Vec) and isinstance(a0, Vec) and len(ix.v) == len(a0.v) and ix.v and all(isinstance(x, str) for x in ix.v) \
+                and len(set(ix.v)) == len(ix.v) and not ix.aligned:
+            return LabelSeries(dict(zip(ix.v, a0.v)))           # a lookup table keyed by distinct literal labels
         if isinstance(a0, Vec):
             return Vec(a0.v, fresh=fresh and not a0.aligned, aligned=a0.aligned and name == "pd.Series")
         if isinstance(a0, (list, tuple)):
@@ -1303,7 +1347,9 @@ def ext_call(it, dotted, args, kw):
             if not isinstance(part, Vec):
                 return Opaque(name)
             out.extend(part.v)
-        return Vec(out)
+        r = Vec(out)
+        r.exact = bool(parts_exact(it, args[0]))
+        return r
     if name in ("np.array_equal",):
         a, b = args
         if isinstance(a, Matrix) or isinstance(b, Matrix):
